@@ -1,16 +1,18 @@
 """C11 - factorisations reconstruct the input and have the promised structure (DESIGN 4/C11)."""
 LEVEL = "model_checking"
-RULE = ("P1: over every integer matrix of order NN with entries in -Mag..Mag (quick 2x2 over -2..2, thorough 3x3 over -1..1) plus "
-        "all 24 permutation matrices of order 4 and 216 products L0 L0^T, TLC checks in exact rational arithmetic that the "
-        "code-shaped LU (column update with min(i,j) inner sum, strict > pivot search, row + pivot-vector swap, guarded "
-        "scaling) satisfies the certificate (permutation, unit lower with |L| <= 1, P A = L U), that the parity routine equals "
-        "the permutation sign, det = sign * prod U_ii = cofactor determinant, and that the Cholesky route is taken exactly for "
-        "the SPD matrices; P3: the real lu / Matrix::lu / det / lu_det / cholesky / Matrix::cholesky / triangular solves / "
-        "lu_solve / cholesky_solve are run on every enumerated matrix and on random small integer matrices, the rationalised "
-        "factors are recorded and TLC (Trace_Linalg) evaluates every certificate on the implementation's OWN output in exact "
-        "arithmetic (so a different valid tie-break is not an alarm): P A = L U, |L| <= 1, slice = Matrix bit for bit, exact "
-        "determinant, L lower with positive diagonal and L L^T = A, rejection of non-PD input, triangular systems inverted. "
-        "Case class = (event kind, matrix class).")
+RULE = ("P1: over every integer matrix of order NN with entries in -Mag..Mag (quick 2x2 over -2..2, thorough 3x3 over "
+        "-1..1) plus all 24 permutation matrices of order 4 and 216 products L0 L0^T, TLC checks in exact rational "
+        "arithmetic that the code-shaped LU (column update with min(i,j) inner sum, strict > pivot search, row + pivot-"
+        "vector swap, guarded scaling) satisfies the certificate (permutation, unit lower with |L| <= 1, P A = L U), "
+        "that the parity routine equals the permutation sign, det = sign * prod U_ii = cofactor determinant, and that "
+        "the Cholesky route is taken exactly for the SPD matrices; P3: the real lu / Matrix::lu / det / lu_det / "
+        "cholesky / Matrix::cholesky / triangular solves / lu_solve / cholesky_solve are run on every enumerated matrix"
+        " and on random small integer matrices, the rationalised factors are recorded and TLC (Trace_Linalg) evaluates "
+        "every certificate on the implementation's OWN output in exact arithmetic (so a different valid tie-break is "
+        "not an alarm): P A = L U, |L| <= 1, slice = Matrix bit for bit, exact determinant, L lower with positive "
+        "diagonal and L L^T = A, rejection of non-PD input, triangular systems inverted; the SPD matrices again times "
+        "2^-80, 2^60, 2^-600 and 2^560: the factor is the factor times the root of the scale, bit for bit. Case class ="
+        " (event kind, matrix class).")
 ASSUMPTIONS = ["exact certificates need factors that rationalise with denominators <= 4096: order <= 4, small integer entries",
                "a singular positive semi-definite matrix is on the rounding boundary of 'not positive definite': either outcome accepted",
                "orders 5..32 and cond 1e8 are outside the exact domain (see C01 for the scaled-residual observation)"]
